@@ -60,6 +60,10 @@ fn gen_lit(rng: &mut Rng, meta: bool) -> Sx {
     }
 }
 
+/// string arguments that contain the other quote character and commas (the argument splitter must keep them whole)
+const QUOTEY: &[&str] = &["it's", "a'b,c", "'", "don't, won't", "x,y", ",", "'',", "5 o'clock, sharp", "','"];
+fn gen_arg(rng: &mut Rng, meta: bool, quotey: bool) -> Sx { if quotey && rng.chance(2, 3) { c01::lit_str(*rng.pick(QUOTEY)) } else { gen_lit(rng, meta) } }
+
 fn gen_action(rng: &mut Rng, meta: bool) -> Sx {
     let target: Vec<&str> = match rng.below(5) { 0 => vec!["out"], 1 => vec!["User", "level"], 2 => vec!["Order", "cust", "tag"], 3 => vec!["order_qty"], _ => c01::any_field(rng).to_vec() };
     let value = |rng: &mut Rng| match rng.below(7) {
@@ -70,7 +74,8 @@ fn gen_action(rng: &mut Rng, meta: bool) -> Sx {
         5 => c01::a_lit(c01::lit_arr((0..rng.below(4)).map(|_| gen_lit(rng, meta)).collect())),
         _ => c01::a_lit(c01::lit_str(&mk_str(rng, meta))),
     };
-    match rng.below(13) {
+    let quotey = rng.chance(1, 2);
+    match rng.below(15) {
         0..=5 => Sx::l(vec![Sx::n(0), c01::path_sx(&target), value(rng)]),
         6 => Sx::l(vec![Sx::n(1), c01::path_sx(&target), c01::a_lit(gen_lit(rng, meta))]),
         7 => Sx::l(vec![Sx::n(2), Sx::s(&{ let s = mk_str(rng, meta); if s.is_empty() { "m".into() } else { s } })]),
@@ -78,8 +83,8 @@ fn gen_action(rng: &mut Rng, meta: bool) -> Sx {
         9 => Sx::l(vec![Sx::n(4), Sx::s(*rng.pick(&["validation", "g1", "pricing"]))]),
         10 => Sx::l(vec![Sx::n(5), Sx::i(*rng.pick(&[0i64, 500, 60000])), Sx::s(*rng.pick(&["R1", "follow up"]))]),
         11 => Sx::l(vec![Sx::n(6), Sx::s(*rng.pick(&["wf1", "order flow"]))]),
-        12 => Sx::l(vec![Sx::n(8), Sx::s(*rng.pick(&["Notify", "sendEmail", "Audit2"])), Sx::l((0..rng.below(4)).map(|_| gen_lit(rng, meta)).collect())]),
-        _ => Sx::l(vec![Sx::n(9), Sx::s(*rng.pick(&["Car", "User"])), Sx::s(*rng.pick(&["setSpeed", "reset"])), Sx::l((0..rng.below(3)).map(|_| gen_lit(rng, meta)).collect())]),
+        12 | 13 => Sx::l(vec![Sx::n(8), Sx::s(*rng.pick(&["Notify", "sendEmail", "Audit2"])), Sx::l((0..rng.below(5)).map(|_| gen_arg(rng, meta, quotey)).collect())]),
+        _ => Sx::l(vec![Sx::n(9), Sx::s(*rng.pick(&["Car", "User"])), Sx::s(*rng.pick(&["setSpeed", "reset"])), Sx::l((0..rng.below(4)).map(|_| gen_arg(rng, meta, quotey)).collect())]),
     }
 }
 
